@@ -31,7 +31,7 @@ fn project(rows: &[Row], keep: &[&str]) -> Vec<String> {
     v.sort(); v
 }
 
-// @grid c23_grid_query_transformations tier=quick bound="numbers 0..8; edges predecessor/successor/multiple(max:3) x scopes plain/@optional/@fold x 6 comparison operators x arguments {0,2,5}; recursion depths 1..3 on predecessor/successor and 1..5 on Composite.divisor (implicit coercion at every level) and Composite.multiple(max:2); 6 string operator pairs x 10 patterns (4 of them invalid regexes) x 3 scopes with static arguments, and with tag arguments; contains/is_null pairs; tag renaming; the entry edge Number(min, max) vs the equivalent range filter (6 ranges x 4 selections)"
+// @grid c23_grid_query_transformations tier=quick bound="numbers 0..8; edges predecessor/successor/multiple(max:3) x scopes plain/@optional/@fold x 6 comparison operators x arguments {0,2,5}; recursion depths 1..3 on predecessor/successor and 1..5 on Composite.divisor (implicit coercion at every level) and Composite.multiple(max:2); 6 string operator pairs x 10 patterns (4 of them invalid regexes) x 3 scopes with static arguments, and with tag arguments; contains/is_null pairs; tag renaming; `=`/one_of and `!=`/not_one_of with null and string arguments on a property with null values; all ordered pairs of 32 fold-count filters on a fold with and without outputs (adding a filter never adds rows); the entry edge Number(min, max) vs the equivalent range filter (6 ranges x 4 selections)"
 // @ob adding a filter never adds rows; a filter and its negation partition the rows (outside missing optional scopes); `=` agrees with one_of on a one-element list; making an edge @optional keeps all previous rows; raising a recursion depth never removes rows; renaming outputs or tags and reordering sibling selections changes no row contents; a parameterized edge (Number(min, max)) behaves like the equivalent filter
 pub(crate) fn c23_grid_query_transformations() {
     let mut n = 0u64;
@@ -142,6 +142,46 @@ pub(crate) fn c23_grid_query_transformations() {
             if both != keyed(&all) { failures.insert(format!("filter {pos} and its negation {neg} on {prop} do not partition the rows")); }
         }
         n += 1;
+    }
+    // `=` and one_of with a one-element list agree for every argument, null included, on a nullable property with null values
+    for x in [FieldValue::Null, FieldValue::String(Arc::from("twenty")), FieldValue::String(Arc::from("two")), FieldValue::String(Arc::from("nope"))] {
+        for scope in ["", "successor"] {
+            vk::grid_case(format_args!("= vs one_of with {:?} in scope [{}]", x, scope));
+            let (open, close) = if scope.is_empty() { (String::new(), "") } else { (format!("{scope} {{"), "}") };
+            let q = |op: &str, var: &str| format!(r#"{{ Number(min: 17, max: 24) {{ value @output(name: "v") {open} name @output(name: "w") @filter(op: "{op}", value: ["${var}"]) {close} }} }}"#);
+            let single = FieldValue::List(vec![x.clone()].into());
+            if let (Some(a), Some(b)) = (rows(&q("=", "x"), &[("x", x.clone())], &mut failures), rows(&q("one_of", "l"), &[("l", single.clone())], &mut failures)) {
+                if a != b { failures.insert(format!("`=` {x:?} and one_of [{x:?}] disagree in scope [{scope}]")); }
+            }
+            if let (Some(a), Some(b)) = (rows(&q("!=", "x"), &[("x", x.clone())], &mut failures), rows(&q("not_one_of", "l"), &[("l", single)], &mut failures)) {
+                if a != b { failures.insert(format!("`!=` {x:?} and not_one_of [{x:?}] disagree in scope [{scope}]")); }
+            }
+            n += 1;
+        }
+    }
+    // filters on a fold's count: adding one never adds rows, whatever the other one is (folds with and without outputs of their own)
+    let count_filters: Vec<(String, FieldValue)> = ["<", "<=", "=", "!=", ">", ">="].iter().flat_map(|op| (0..4i64).map(move |k| (op.to_string(), FieldValue::Int64(k))))
+        .chain(["one_of", "not_one_of"].iter().flat_map(|op| [vec![0i64], vec![2], vec![1, 3], vec![0, 1, 2, 3]].into_iter().map(move |l| (op.to_string(), FieldValue::List(l.into_iter().map(FieldValue::Int64).collect::<Vec<_>>().into()))))).collect();
+    for inner in ["", r#"{ value @output(name: "m") }"#] {
+        let q = |filters: &str| format!(r#"{{ Number(min: 2, max: 8) {{ value @output(name: "v") multiple(max: 3) @fold @transform(op: "count") {filters} {inner} }} }}"#);
+        let Some(all) = rows(&q(""), &[], &mut failures) else { continue; };
+        let all_k = keyed(&all);
+        for (op1, a1) in &count_filters {
+            vk::grid_case(format_args!("count filter {} {:?} inner [{}]", op1, a1, inner));
+            let f1 = format!(r#"@filter(op: "{op1}", value: ["$a"])"#);
+            let Some(r1) = rows(&q(&f1), &[("a", a1.clone())], &mut failures) else { continue; };
+            let k1 = keyed(&r1);
+            if !included(&k1, &all_k) { failures.insert(format!("count filter {op1} {a1:?} added rows")); }
+            for (op2, a2) in &count_filters {
+                let f2 = format!(r#"@filter(op: "{op2}", value: ["$b"])"#);
+                for both in [format!("{f1} {f2}"), format!("{f2} {f1}")] {
+                    if let Some(r12) = rows(&q(&both), &[("a", a1.clone()), ("b", a2.clone())], &mut failures) {
+                        if !included(&keyed(&r12), &k1) { failures.insert(format!("adding count filter {op2} {a2:?} to {op1} {a1:?} added rows (fold {})", if inner.is_empty() { "without outputs" } else { "with an output" })); }
+                    }
+                }
+                n += 1;
+            }
+        }
     }
     // a parameterized edge behaves like the equivalent filter: Number(min, max) is the range filter on value
     for (a, b) in [(0i64, 12i64), (3, 7), (5, 5), (7, 3), (0, 0), (11, 12)] {
